@@ -99,12 +99,50 @@ def san_kind(rc, err):
     return None
 
 
+SKIP_FRAMES = ("__interceptor", "__asan", "free", "malloc", "tramp", "urefcount_release", "upipe_release", "uref_free",
+               "ubuf_free", "udict_free", "upool_free", "upool_alloc", "upool_alloc_internal", "uprobe_release",
+               "upipe_mgr_release", "ubuf_mgr_release", "uref_mgr_release", "umem_free", "urequest_free",
+               "upipe_control_nodbg_va", "upipe_control_va", "upipe_control", "upipe_alloc_va", "upipe_alloc")
+
+
+def san_site(err):
+    """Stable description of an AddressSanitizer use-after-free / double-free
+    report: which kind of object (function that allocated it) and in which
+    function of the repository the release that freed it was issued."""
+    sect, stacks = "access", {"access": [], "freed": [], "alloc": []}
+    for l in err.splitlines():
+        if l.startswith("freed by thread"):
+            sect = "freed"
+        elif l.startswith("previously allocated by"):
+            sect = "alloc"
+        elif l.startswith("SUMMARY") or l.startswith("Shadow bytes"):
+            break
+        m = re.match(r"\s+#\d+ 0x[0-9a-f]+ in (\S+) (\S+)", l)
+        if m:
+            stacks[sect].append((m.group(1), m.group(2)))
+
+    def first_repo(st, skip_destructors=False):
+        for fn, where in st:
+            if "/repo/" not in where or fn in SKIP_FRAMES:
+                continue
+            if skip_destructors and re.search(r"(_free|_free_void|_free_inner|_dead_urefcount|_no_ref|_clean_\w+)$", fn):
+                continue
+            return fn
+        return None
+    obj = first_repo(stacks["alloc"])
+    rel = first_repo(stacks["freed"], skip_destructors=True)
+    if obj is None and rel is None:
+        return None
+    return "object=%s;released-in=%s" % (obj or "?", rel or "application")
+
+
 def run_one(ctx, binp, exe, timeout=10):
     env = SAN_ENV if exe.leaks else dict(SAN_ENV, ASAN_OPTIONS=SAN_ENV["ASAN_OPTIONS"].replace("detect_leaks=1", "detect_leaks=0"))
     r = ctx.run([binp, str(exe.pool)], input="\n".join(exe.script()) + "\nquit\n", timeout=timeout, env=env)
     exe.rc = r.returncode
     exe.stderr = (r.stderr or "")[-6000:]
     exe.san = san_kind(r.returncode, r.stderr or "")
+    exe.site = san_site(r.stderr or "") if exe.san in ("use-after-free", "double-free") else None
     exe.raw = r.stdout.splitlines()
     if len(exe.raw) > 60000:
         # an execution that floods (a livelock that keeps printing): inconclusive, like a hang
@@ -350,6 +388,10 @@ def key_of(exe, line, why):
         left = [inv[e["o"]] for e in exe.events if e["e"] == "Init" and e["o"] not in ended and e["o"] in inv]
         left = [n for n in left if n in ty and n != "se"]
         target = left[0] if left else None
+    if ev.get("e") == "San" and ev.get("kind") in ("use-after-free", "double-free"):
+        site = getattr(exe, "site", None)
+        if site is not None:
+            return "%s;%s" % (ev["kind"], site)
     if target is not None:
         seq = []
         for c, _ in exe.blocks[:bi + 1 if bi >= 0 else None]:
@@ -381,9 +423,32 @@ def well_formed(cmds):
     fdset = set()      # pipes that were given a flow definition
     sinks = set()
     regs = {}          # request -> pipe it is registered on
+    stall = any(c.split()[0] in ("new", "cnew") and c.split()[2] in STALL_TYPES for c in cmds if len(c.split()) > 2)
+    outof, kinds, released = {}, {}, False
+    need_who = set()   # handles whose object id has not been announced yet (`who` right after the creation:
+                       # without it the application's reference on the object is unknown to the trace)
     for c in cmds:
         t = c.split()
         k = t[0]
+        if k == "who":
+            need_who.discard(t[1])
+        elif need_who and any(x in need_who for x in t[1:]):
+            return False
+        if k in ("new", "cnew", "sink", "sub"):
+            need_who.add(t[1])
+        if k in ("new", "cnew") and len(t) > 2:
+            kinds[t[1]] = t[2]
+        if k == "sub":
+            kinds[t[1]] = "sub"
+        if stall:
+            if k == "out" and len(t) > 2:
+                if t[2] == "null" and released:
+                    return False      # a released pipe upstream may lose its path to a sink
+                outof[t[1]] = None if t[2] == "null" else t[2]
+            if k == "rel" and t[1] in kinds:
+                if kinds[t[1]] not in ("qsrc", "qsink", "null", "sub") and outof.get(t[1]) is None:
+                    return False      # released without output while a self-holding pipe exists
+                released = True
         if k == "sink":
             sinks.add(t[1])
         if k in ("setfd", "usetfd"):
@@ -965,6 +1030,10 @@ def epilogue_for(body):
 
 PUMP_TYPES = ("buffer", "disblo", "burst", "time_limit", "rate_limit", "sync", "play", "trickp", "stream_switcher",
               "even", "audiocont", "videocont")
+# pipes that keep a reference on themselves while they hold input waiting for an answer (ubuf manager, flow
+# format, clock): released without any path to a sink, nobody can ever answer them and they stay alive by design.
+# Scripts containing one keep every released pipe connected (contract checked by well_formed as well).
+STALL_TYPES = ("tblk", "genaux", "even", "time_limit")
 
 
 def gen_random(rng, info, quick):
@@ -1016,6 +1085,9 @@ def gen_random(rng, info, quick):
     bid = 1
     uid = 0
     fd_ok = set()
+    has_stall = any(t in STALL_TYPES for t in held.values())
+    released_one = False
+    nrelsink = 0
 
     def can_input():
         return [n for n in held if held[n] == "sink" or
@@ -1035,6 +1107,8 @@ def gen_random(rng, info, quick):
             cands = sorted(n for n in held if order.get(n, -1) > order.get(p, 999) and held[n] != "qsrc"
                            and (held[n] == "sink" or held[n] == "qsink" or info.get(held[n], {}).get("input")))
             x = rng.choice(cands + ["null"]) if cands else "null"
+            if x == "null" and has_stall and released_one:
+                continue
             cmds.append("out %s %s" % (p, x))
             outof[p] = None if x == "null" else x
         elif k < 28 and hp:
@@ -1067,6 +1141,15 @@ def gen_random(rng, info, quick):
                 if q == p:
                     cmds.append("unreg %s %s" % (p, r))
                     reqs[r] = None
+            if has_stall and held[p] not in ("sink", "qsrc", "qsink", "null") and not held[p].endswith(".sub") \
+                    and outof.get(p) is None:
+                # keep it connected (see STALL_TYPES): a sink of its own, released at once
+                sn = "sr%d" % nrelsink
+                nrelsink += 1
+                cmds += ["sink %s" % sn, "who %s" % sn, "out %s %s" % (p, sn), "rel %s" % sn]
+                outof[p] = sn
+            if has_stall and held[p] != "sink":
+                released_one = True
             cmds.append("rel %s" % p)
             del held[p]
             fd_ok.discard(p)
@@ -1175,6 +1258,18 @@ def directed():
                     "rcs", "teardown"], "directed dup", 2))
     out.append(Exe(["new p0 tblk", "who p0", "sink s0", "who s0", "out p0 s0", "setfd p0 bA", "in p0 1 8",
                     "rel p0", "rcs", "answer", "rel s0", "rcs", "teardown"], "directed held input, request answered", 0))
+    # held input followed by flow definitions, then the manager request is answered synchronously while the
+    # held input is drained (nested check): the self-reference must be released once
+    for ty in ("genaux", "tblk"):
+        body = ["cnew p1 %s" % ty, "who p1", "cnew p2 idem", "who p2", "probeprov p2 ubuf_mgr on", "setfd p1 bB",
+                "in p1 1 1", "setfd p1 bA", "setfd p1 bA", "out p1 p2", "rcs"]
+        e = Exe(body + epilogue_for(body), "directed nested check (%s)" % ty, 0)
+        e.nbody = len(body)
+        out.append(e)
+    body = ["cnew p1 stream_switcher", "who p1", "sub q0 p1", "who q0", "rel p1", "setfd q0 bA", "rcs"]
+    e = Exe(body + epilogue_for(body), "directed sub-pipe controls its released super pipe", 0)
+    e.nbody = len(body)
+    out.append(e)
     return out
 
 
